@@ -72,21 +72,57 @@ func cmdC17Iface(c *ctx) {
 		var params, uses []string
 		var inLocs []int
 		nargs := 1 + c.rng.Intn(4)
+		// name clashes (C16): members, arguments, locals and struct types take spellings from one small pool — a member may
+		// share its name with a bare argument (different WGSL scopes), a local may be called `_tmp`, a struct may be called
+		// like the interface structs the writers generate (`FragmentInput_fs`, `fsInput`, `vsOutput` …)
+		clash := c.chance(0.5)
+		pool := []string{"x", "v", "pos", "_tmp", "value", "o", "member", "input", "output"}
+		pick := func(def string, taken map[string]bool) string {
+			n := def
+			if clash && c.chance(0.6) {
+				n = pool[c.rng.Intn(len(pool))]
+			}
+			if taken[n] {
+				n = def
+			}
+			taken[n] = true
+			return n
+		}
+		argNames := map[string]bool{}
+		structNames := map[string]bool{"VOut": true}
+		sname := func(def string) string {
+			n := def
+			if clash && c.chance(0.5) {
+				n = []string{"FragmentInput_fs", "VertexInput_vs", "VertexOutput_vs", "FragmentOutput_fs", "fsInput", "vsInput", "vsOutput", "fsOutput"}[c.rng.Intn(8)]
+			}
+			if structNames[n] {
+				n = def
+			}
+			structNames[n] = true
+			return n
+		}
 		for a := 0; a < nargs; a++ {
 			if c.chance(0.4) {
 				fs := c.ifaceFields(stage, true, fmt.Sprintf("s%d", a), 1+c.rng.Intn(3), usedLoc, usedB)
-				fmt.Fprintf(&sb, "struct In%d {\n", a)
+				members := map[string]bool{}
+				for k := range fs {
+					fs[k].name = pick(fs[k].name, members)
+				}
+				stName := sname(fmt.Sprintf("In%d", a))
+				argName := pick(fmt.Sprintf("a%d", a), argNames)
+				fmt.Fprintf(&sb, "struct %s {\n", stName)
 				for _, f := range fs {
 					fmt.Fprintf(&sb, "  %s %s: %s,\n", f.attr, f.name, f.ty)
-					uses = append(uses, fmt.Sprintf("a%d.%s", a, f.name)+"|"+f.ty)
+					uses = append(uses, fmt.Sprintf("%s.%s", argName, f.name)+"|"+f.ty)
 					if f.loc >= 0 {
 						inLocs = append(inLocs, f.loc)
 					}
 				}
 				sb.WriteString("}\n")
-				params = append(params, fmt.Sprintf("a%d: In%d", a, a))
+				params = append(params, fmt.Sprintf("%s: %s", argName, stName))
 			} else {
 				f := c.ifaceFields(stage, true, fmt.Sprintf("p%d", a), 1, usedLoc, usedB)[0]
+				f.name = pick(f.name, argNames)
 				params = append(params, fmt.Sprintf("%s %s: %s", f.attr, f.name, f.ty))
 				uses = append(uses, f.name+"|"+f.ty)
 				if f.loc >= 0 {
@@ -119,11 +155,12 @@ func cmdC17Iface(c *ctx) {
 				outLocs = append(outLocs, f.loc)
 			}
 			sb.WriteString("}\n")
-			fmt.Fprintf(&sb, "@vertex\nfn vs(%s) -> VOut {\n  var o: VOut;\n  o.pos = vec4<f32>(%s);\n", strings.Join(params, ", "), acc)
+			lo := pick("o", argNames) // the local shares the function scope with the parameters
+			fmt.Fprintf(&sb, "@vertex\nfn vs(%s) -> VOut {\n  var %s: VOut;\n  %s.pos = vec4<f32>(%s);\n", strings.Join(params, ", "), lo, lo, acc)
 			for _, f := range fs {
-				fmt.Fprintf(&sb, "  o.%s = %s(%s);\n", f.name, f.ty, map[bool]string{true: "1", false: "1.0"}[f.ty == "u32" || f.ty == "i32"])
+				fmt.Fprintf(&sb, "  %s.%s = %s(%s);\n", lo, f.name, f.ty, map[bool]string{true: "1", false: "1.0"}[f.ty == "u32" || f.ty == "i32"])
 			}
-			sb.WriteString("  return o;\n}\n")
+			fmt.Fprintf(&sb, "  return %s;\n}\n", lo)
 		} else {
 			outLocs = []int{0}
 			fmt.Fprintf(&sb, "@fragment\nfn fs(%s) -> @location(0) vec4<f32> {\n  return vec4<f32>(%s);\n}\n", strings.Join(params, ", "), acc)
@@ -163,6 +200,8 @@ func cmdC17Iface(c *ctx) {
 				report(dialect, "emitted text unreadable: "+perr.Error(), text)
 				return
 			}
+			c.line("redecl-cases.txt", fmt.Sprintf("(redecl %s (unit %s))", dialect, unit))
+			c.line("redecl-src.txt", q(src)+" "+q(text))
 			for _, f := range funcsOf(sparse(unit)) {
 				for _, p := range f.kids[4].kids {
 					if p.list && p.head() == "param" && len(p.kids) >= 4 && p.kids[3].atom == "" {
@@ -174,19 +213,10 @@ func cmdC17Iface(c *ctx) {
 			switch dialect {
 			case "msl":
 				// input side: the stage_in struct <ep>Input; output side: <ep>Output
-				in, out := "", ""
-				if i := strings.Index(text, "struct "+ep+"Input"); i >= 0 {
-					in = text[i:]
-					if j := strings.Index(in, "};"); j >= 0 {
-						in = in[:j]
-					}
-				}
-				if i := strings.Index(text, "struct "+ep+"Output"); i >= 0 {
-					out = text[i:]
-					if j := strings.Index(out, "};"); j >= 0 {
-						out = out[:j]
-					}
-				}
+				// (the whole text: fragment inputs are the only `user(locN)` of a fragment shader, vertex inputs the only
+				// `attribute(N)` and vertex outputs the only `user(locN)` of a vertex shader — whatever the structs are called)
+				in, out := text, text
+				_ = ep
 				reIn := reMslIn
 				if stage == "vertex" {
 					reIn = reMslAttr // vertex inputs are [[attribute(N)]]
